@@ -63,6 +63,8 @@ func genSpec(r *rand.Rand, i int, thorough bool) spec {
 	case i%6 == 5:
 		// database level
 		sp.Kind = "db"
+		// DDL committing during the truncator's catalog copy: 0-6 times in a row per truncation
+		sp.RacingDDL = [3]int{[]int{3, 5, 0, 1, 4, 2, 6}[(i/6)%7], []int{0, 2, 0, 1}[(i/6)%4], []int{1, 0, 4, 3, 0}[(i/6)%5]}
 		sp.FileSize = []int{512, 1024, 2048}[r.IntN(3)]
 		sp.VLogCache = 0
 	case i%12 == 7:
